@@ -15,3 +15,8 @@ example :
                            .rotate, .walAppend]
     noStraddle false ops = true ∧ (DState.run {} ops).recover = [0, 1, 2] ∧ (DState.run {} ops).acked = [0, 1] := by
   decide
+
+#print axioms C02_acked_survive_process_crash
+#print axioms C02_acked_survive_reopen
+#print axioms C03_recovered_only_written
+#print axioms fixed_recovery_retired_a_split_segment
